@@ -145,7 +145,7 @@ macro_rules! dens_common {
                 ok && s.nb_empty == ne
             }
 
-            /// one `sketch` call: the bin chosen by the item keeps the smaller r (ties: the later item),
+            /// one `sketch` call: the bin chosen by the item keeps the smaller (r, hash) pair,
             /// every other bin is untouched, Inv kept; (r, bin) are the documented functions of the item's stream
             pub(crate) fn step<const M: usize>() {
                 let mut s = any_state_sym::<M>();
@@ -166,7 +166,9 @@ macro_rules! dens_common {
                 let kk: usize = Uniform::<usize>::new(0, M).unwrap().sample(&mut rng);
                 assert!(kk < M);
                 for k in 0..M {
-                    if k == kk && r <= oh[k] {
+                    // lexicographic minimum of (r, hash): an exact tie on r between two different items is broken
+                    // on the hash, so the bin content does not depend on the order of arrival
+                    if k == kk && (r < oh[k] || (r == oh[k] && item <= ov[k])) {
                         assert!(s.hsketch[k] == r && s.values[k] == item && s.init[k]);
                     } else {
                         assert!(beq(s.hsketch[k], oh[k]) && s.values[k] == ov[k] && s.init[k] == oi[k]);
@@ -180,7 +182,7 @@ macro_rules! dens_common {
                 }
                 assert!(inv::<M>(&s));
                 kani::cover!(s.values[0] == item && oi[0] && ov[0] != item, "witness: a populated bin was overwritten");
-                kani::cover!(M > 1 && s.values[M - 1] == ov[M - 1] && kk == M - 1 && oi[M - 1], "witness: a populated bin resisted");
+                kani::cover!(s.values[M - 1] == ov[M - 1] && kk == M - 1 && oi[M - 1] && ov[M - 1] != item, "witness: a populated bin resisted");
             }
 
             /// the three views after finishing.  The stored hashes range over base ^ (x << 8) ^ (y << 40) with
@@ -415,6 +417,7 @@ macro_rules! dproof {
     ($name:ident, $unw:expr, $body:expr) => {
         #[kani::proof]
         #[kani::stub(std::backtrace::Backtrace::capture, crate::verif_common::no_backtrace)]
+        #[kani::stub(<::anyhow::Error as std::ops::Drop>::drop, crate::verif_common::anyhow_drop_noop)]
         #[kani::unwind($unw)]
         fn $name() {
             $body
@@ -475,6 +478,7 @@ dproof!(c09_rev_slice_m3, 6, c09_rev_slice::<3>());
 
 #[kani::proof]
 #[kani::stub(std::backtrace::Backtrace::capture, crate::verif_common::no_backtrace)]
+#[kani::stub(<::anyhow::Error as std::ops::Drop>::drop, crate::verif_common::anyhow_drop_noop)]
 #[kani::unwind(8)]
 #[kani::should_panic]
 fn c09_opt_empty_end_m2() {
@@ -482,12 +486,14 @@ fn c09_opt_empty_end_m2() {
 }
 #[kani::proof]
 #[kani::stub(std::backtrace::Backtrace::capture, crate::verif_common::no_backtrace)]
+#[kani::stub(<::anyhow::Error as std::ops::Drop>::drop, crate::verif_common::anyhow_drop_noop)]
 #[kani::unwind(8)]
 fn c09_opt_empty_slice_m2() {
     c09_opt_empty::<2>(true);
 }
 #[kani::proof]
 #[kani::stub(std::backtrace::Backtrace::capture, crate::verif_common::no_backtrace)]
+#[kani::stub(<::anyhow::Error as std::ops::Drop>::drop, crate::verif_common::anyhow_drop_noop)]
 #[kani::unwind(8)]
 #[kani::should_panic]
 fn c09_rev_empty_end_m2() {
@@ -495,6 +501,7 @@ fn c09_rev_empty_end_m2() {
 }
 #[kani::proof]
 #[kani::stub(std::backtrace::Backtrace::capture, crate::verif_common::no_backtrace)]
+#[kani::stub(<::anyhow::Error as std::ops::Drop>::drop, crate::verif_common::anyhow_drop_noop)]
 #[kani::unwind(8)]
 fn c09_rev_empty_slice_m2() {
     c09_rev_empty::<2>(true);
